@@ -88,13 +88,18 @@ def addr_expr(draw, nm, allow_dot=True):
 
 
 @st.composite
-def diff_expr(draw, nm):
-    """label difference (base-free), possibly scaled"""
+def diff_expr(draw, nm, allow_dot=False):
+    """label difference (base-free), possibly scaled; with allow_dot also '. - label' under the operators pdpy11 evaluates on
+    numbers only (/ % >> <<): such a value differs between the copies of a .repeat body"""
     pool = nm.labels + nm.aconsts
     if len(pool) < 2:
         return ("num", draw(small_num()))
     a, b = draw(st.sampled_from(pool)), draw(st.sampled_from(pool))
     d = ("bin", "-", ("sym", a), ("sym", b))
+    if allow_dot and draw(st.integers(0, 2)) == 0:
+        d = ("bin", "-", ("dot",), ("sym", b))
+        op, n = draw(st.sampled_from([("/", 2), ("%", 4), (">>", 1), ("<<", 1), ("/", 4), ("%", 6)]))
+        return ("bin", op, d, ("num", n))
     k = draw(st.integers(0, 4))
     if k == 0:
         return ("bin", "/", d, ("num", 2))
@@ -113,7 +118,7 @@ def value_expr(draw, nm, allow_dot=True):
         return draw(const_expr(nm))
     if k < 8:
         return draw(addr_expr(nm, allow_dot))
-    return draw(diff_expr(nm))
+    return draw(diff_expr(nm, allow_dot))
 
 
 @st.composite
